@@ -124,6 +124,59 @@ CLAIMS.update({
         note="Trusted: oracle text in sa/props/c12.py (Noll 1976); installed NumPy/SciPy for attribute existence."),
 })
 
+CLAIMS.update({
+    "C01": dict(
+        category="other", design="DESIGN.md §3 C01",
+        technique="static analysis: abstract interpretation of both assembly copies with loop variables and attributes symbolic (affine block bounds, tiling, block sources, no index permutation, scale normal form); per-pair functions compared with the finite-difference definition as normal forms; projection formulas compared with their geometric definition",
+        text=("Decides: the four block updates tile the (i, j) block (all x then all y per sensor); each quadrant receives the slope-kind "
+              "covariance it stands for, with no flip/transpose between per-pair result and block; compute_covariance_xx/yy/xy equal "
+              "the finite-difference expansion in the structure function; separations s[i,j] = p2[j]-p1[i]; scale lambda_i lambda_j/"
+              "(8 pi^2 d_i d_j) with projected diameters; r0^(-5/3); zero-initialised += accumulation over all layers; sub-aperture "
+              "centres and cone/offset projection formulas on copies; lower block triangle + OR-mirror. Positive semi-definiteness "
+              "and rounding are not decided. Known findings: unequal projected diameters (xx/yy term, yx block)."),
+        note="Trusted: finite-difference covariance identity for stationary fields (oracle text); numpy.where order; gs_altitudes are altitudes."),
+    "C02": dict(
+        category="other", design="DESIGN.md §3 C02",
+        technique="static analysis: reconstructor body reduced to a normal form (affine slice bounds, dot, pinv with its conditioning, transpose algebra) and compared with the minimum-variance formula; wrapper arguments from its normal form",
+        text=("The returned matrix is C[:2n, 2n:] . pinv(C[2n:, 2n:], rcond) and the wrapper passes its own matrix, the first "
+              "sensor's count and its conditioning argument; with the pseudo-inverse lemma this is the normal-equation solution on "
+              "the retained subspace for every PSD input. The duplicate-sensor clause (needs covariance values) is not decided."),
+        note="Trusted: B M^+ solves R M = B on range(M) and minimises the residual (pinv contract)."),
+    "C03": dict(
+        category="proof", design="DESIGN.md §3 C03",
+        technique="static analysis: structural proof from eight facts (ordered collective, producer/consumer loop-nest agreement and counter discipline, FX purity of the worker, argument-tuple agreement, identical operation trees of the two copies, fresh accumulator, attribute read/write discipline across builds, dispatch-only use of the thread count)",
+        text=("For every worker count, completion order and rebuild history the multi-process result is bit-identical to the "
+              "single-process one: results come back in submission order (Pool.map contract) and are consumed positionally in the "
+              "same loop order, the worker is pure, both copies perform the same floating-point operations in the same order on the "
+              "same arguments, and no attribute carries state from one build to the next."),
+        note="Trusted: multiprocessing.Pool.map/starmap ordering contract; FX tables; pickling preserves argument values."),
+    "C04": dict(
+        category="other", design="DESIGN.md §3 C04",
+        technique="static analysis: per-method normal forms of every construction step and of the row synthesis (attributes symbolic), compared with their specifications; constructor step order against read/write sets",
+        text=("A = Cov_xz inv(Cov_zz), B = U diag(sqrt w) from svd(Cov_xx - A Cov_zx), block cuts matching the (stencil, new row) "
+              "concatenation order, Euclidean separations x pixel_scale in both kernels, gather coordinates = covariance "
+              "coordinates, new row at row -1, row = A Z + B b with one N(0,1) draw (Fried: A (Z - rho) + B b + rho), "
+              "phase_covariance(separations, r0, L0), von Karman stencil rows, and a constructor order in which every step's inputs "
+              "exist. Conditioning, stationarity as a statistical fact and Fried's stencil geometry are not decided."),
+        note="Trusted: cho_solve(cho_factor(M), I) = inv(M); svd of symmetric PSD; algebra lemma of Assemat & Wilson."),
+    "C05": dict(
+        category="other", design="DESIGN.md §3 C05",
+        technique="static analysis: normal form of the step function (row prepend + crop) and of the exposed view; effect summaries (who writes which attribute, read-only accessors); draw count per path; size relations incl. loop-exit condition of find_allowed_size",
+        text=("After any history: add_row rebinding is concat([new_row, screen])[:stencil_length, :nx_size] with a (1, nx_size) row, the "
+              "exposed view crops to the requested size on both axes, readers (scrn, __repr__) write nothing and draw nothing, only "
+              "make_initial_screen/add_row write the screen, exactly one draw of nx_size per row, requested <= nx_size <= "
+              "stencil_length. Finiteness and spectral stability of the recursion are not decided."),
+        note="Trusted: numpy.append/concatenate semantics; FX tables."),
+    "C06": dict(
+        category="proof", design="DESIGN.md §3 C06",
+        technique="static analysis: random-source provenance over the resolved call graph (classification of every RNG/clock call site, data-dependence of generator constructor arguments on the seed, receivers of draws from normal forms, seed forwarding, generator scope, hidden state)",
+        text=("In the screen modules and everything reachable from them: no global-state RNG or clock, every generator is "
+              "default_rng(seed / self.random_seed), every draw is made on such a generator held in a local or instance attribute, "
+              "seeds are forwarded to seeded callees, draw counts depend on size parameters and literal bounds only, no memoisation "
+              "or module state; hence same seed + parameters => identical screens and rows under any interleaving."),
+        note="Trusted: numpy Generator determinism and isolation from the global RandomState; default_rng(Generator) returns it."),
+})
+
 NOT_APPLICABLE = {
     "C13": ("every clause is about the output of eigh / eigenvalue sorting / bilinear resampling error computed at "
             "run time; no code-shape fact is a necessary condition that static analysis can decide (DESIGN §5)"),
